@@ -257,6 +257,9 @@ def small_resubmit_tasks(ctx, count):
         scn = families.scn("ABC", blk=blk, flag="".join(j for k, j in enumerate("ABC") if fmask >> k & 1),
                            rc={j: 1 for k, j in enumerate("ABC") if rcmask >> k & 1},
                            groups=[families.G(size=size, tryadd=(i % 2 == 0), procs=2)], maxnodes=0 if i % 3 else 1)
+        if i % 3 == 2:
+            # other exit codes in the rerun: what failed passes, what passed fails
+            scn["rc_by_epoch"] = {"1": {j: (0 if scn["rc"].get(j, 0) else 1) for j in "ABC"}}
         tasks.append(("resubmit_scn", (scn, ctx.seed + i, [fs])))
     return tasks
 
@@ -751,18 +754,26 @@ def user_round_sweep_tasks(ctx, cap=None):
              families.scn("ABC", groups=[families.G(size=2, procs=1)], maxnodes=0)]
     base_tasks = [("fault", (b, ctx.seed * 37 + i, None, False)) for i, b in enumerate(bases)]
     baselines = run_tasks(base_tasks)
-    tasks = []
+    tasks, held = [], []
     for (kind_, (scn, seed, _, fm)), btr in zip(base_tasks, baselines):
         nsteps = len(btr["moves"])
-        for t in range(2, nsteps, 2):
+        for t in range(1, nsteps, 2):
             for j in range(0, 16):
-                plan = [{"kind": "usertry", "t": t, "host": "user"},
+                # from another login host, and from the host submit-jobs ran on (the hostname is what the role records)
+                plan = [{"kind": "usertry", "t": t, "host": "user" if (t // 2 + j) % 2 else "login"},
                         {"kind": "delay", "label": "try-submit-jobs", "b": -1, "j": j, "d": 25}]
                 tasks.append(("fault", (scn, seed, plan, False)))
-    ctx.extra["user_round_points_enumerated"] = len(tasks)
+        # ... and the other way round: submit-jobs itself is held at each of its first operations while a round started on
+        # the same login host runs to its end
+        for t in range(1, 8):
+            for j in range(0, 10):
+                plan = [{"kind": "usertry", "t": t, "host": "login"},
+                        {"kind": "delay", "label": "submit-jobs", "b": -1, "j": j, "d": 45}]
+                held.append(("fault", (scn, seed, plan, False)))
+    ctx.extra["user_round_points_enumerated"] = len(tasks) + len(held)
     if cap and len(tasks) > cap:
         tasks = random.Random(ctx.seed + 4).sample(tasks, cap)
-    return baselines, tasks
+    return baselines, tasks + held
 
 
 def fine_user_round_sweep_tasks(ctx, cap=None):
@@ -805,14 +816,14 @@ def protocol_suite(ctx, n_quick=400, n_thorough=4000, gen_kw=None, salt=0):
     sscns = [scenario.gen(srng, n_min=4, n_max=5, groups_max=2, allow_time=True) for _ in range(3 if q else 12)]
     ctx.impl_model("JadeImpl simulation on random 4-5-job scenarios", sscns, maxb=5, maxuser=4,
                    simulate=f"num={120 if q else 4000}", max_replay=80 if q else 2000, timeout=1500)
-    kw = dict(n_min=2, n_max=6 if q else 9, groups_max=2, eager=0.04)
+    kw = dict(n_min=2, n_max=6 if q else 9, groups_max=2, eager=0.04, onehost=0.2)
     kw.update(gen_kw or {})
     tasks = [("random_hpc", (s, kw)) for s in seeds(ctx, n_quick if q else n_thorough, salt)]
     ctx.judge(run_tasks(tasks), "random HPC submissions")
     ctx.backward_conformance(160 if q else 2500, salt=salt)
     bl, dt = delay_sweep_tasks(ctx, delay_bases(), cap=450 if q else None)
     ctx.judge(bl + run_tasks(dt), "single-delay sweep of base schedules (each process held at each of its operations)")
-    bl, ut = user_round_sweep_tasks(ctx, cap=500 if q else None)
+    bl, ut = user_round_sweep_tasks(ctx, cap=400 if q else None)
     ctx.judge(bl + run_tasks(ut), "login-node rounds started while batches are active and held at each of their operations")
     bl, ft = fine_user_round_sweep_tasks(ctx, cap=300 if q else None)
     ctx.judge(bl + run_tasks(ft), "the same with every file operation as a scheduling point")
@@ -1060,6 +1071,12 @@ def check_C10(ctx):
     ctx.judge(traces, "real Cluster API: handles running operation scripts under model and random schedules", ignore_other=True)
     kw = dict(n_min=2, n_max=6, groups_max=1)
     ctx.judge(run_tasks([("random_hpc", (s, kw)) for s in seeds(ctx, 200 if q else 3000, 6)]), "random HPC submissions")
+    # commands that are refused the role must leave it alone: resubmit-jobs on a submission in progress while a compute node
+    # (another host / the same host) is submitter, followed by the rest of the run
+    rt = []
+    for v in ("held-other", "held-same", "quiet"):
+        rt += [("resubmit_incomplete", (s, kw, v)) for s in seeds(ctx, 30 if q else 400, 63)]
+    ctx.judge(run_tasks(rt), "resubmit-jobs on submissions in progress while a node holds the role")
     return ctx.finish(rule="ClusterStore.tla: all interleavings of load/promote/demote/update/job-status-only/cancel operations of "
                            "2-3 handles on 2 hosts (each one cluster-lock hold), incl. handles loaded before others changed the "
                            "state; the model's behaviours and random schedules executed on the real Cluster class; plus promote/"
@@ -1651,6 +1668,23 @@ def cancel_shapes_extra(ctx):
     ctx.judge(run_tasks(tasks), "cancellation shapes: all 3-job DAGs x flags x failing job x placement")
     kwl = dict(n_min=3, n_max=7, groups_max=1, allow_time=False)
     ctx.judge(run_tasks([("local", (s, kwl)) for s in seeds(ctx, 100 if q else 1500, 46)]), "random DAGs in local mode")
+    # cancellation also holds for jobs that are rerun: the 3-job space of DAGs x exit codes x flags x resubmit flags
+    ctx.judge(run_tasks(small_resubmit_tasks(ctx, 300 if q else 4000)), "resubmitted 3-job submissions (cancellation per epoch)")
+    # a flagged job with two blockers, rerun with other exit codes than the first time: every such 3-job DAG x which job fails
+    # first x which job fails in the rerun
+    rt = []
+    for blk in all_small_dags(3):
+        two = [j for j in "ABC" if len(blk.get(j, [])) == 2]
+        if not two:
+            continue
+        for fl in (two[0], "ABC"):
+            for f0 in "ABC":
+                for f1 in "ABC":
+                    for size in (1, 3):
+                        sc = families.scn("ABC", blk=blk, flag=fl, rc={f0: 1}, groups=[families.G(size=size, tryadd=True, procs=2)],
+                                          maxnodes=0, rc_by_epoch={"1": {j: int(j == f1) for j in "ABC"}})
+                        rt.append(("resubmit_scn", (sc, ctx.seed + len(rt), [["--failed", "--missing"]])))
+    ctx.judge(run_tasks(rt), "flagged jobs with two blockers rerun with other exit codes")
     # the node-level queue of the model on the shapes where a flagged and an unflagged dependent share a failed blocker
     node_queue_suite(ctx)
     ctx.impl_model("JadeImpl cancellation on the node and by a submitter",
@@ -1685,7 +1719,23 @@ def order_extra(ctx):
 CHECKS["C02"] = make_protocol_check(14, extra=order_extra)     # dependency order also when jobs are rerun
 CHECKS["C09"] = make_protocol_check(15, extra=histories_extra)
 # C06 also under failing scheduler queries: the limit is stated for every instant, not only for fault-free runs
-CHECKS["C06"] = make_protocol_check(16, gen_kw=dict(squeue_faults=0.4, n_min=3), extra=node_queue_suite)
+def limits_extra(ctx):
+    """NodeQueue.tla machine + every exit schedule on the real JobQueue; resubmit-jobs issued the moment the submission is complete"""
+    q = ctx.tier == "quick"
+    node_queue_suite(ctx)
+    # the user resubmits as soon as the completion flag is set: the completing round runs inside the last batch, which is
+    # still RUNNING on the scheduler then -- the limit counts it
+    tasks = []
+    for i, s in enumerate(seeds(ctx, 60 if q else 800, 47)):
+        sc = families.scn("ABCD"[:3 + i % 2], rc={"A": 1, "B": 1 + i % 2}, groups=[families.G(size=1, procs=1)], maxnodes=1 + i % 2)
+        plan = [{"kind": "usertry", "when": "complete", "host": "login", "argv": ["resubmit-jobs", "{out}", "--failed"]}]
+        if i % 3:
+            plan.append({"kind": "hold", "label": "run-jobs", "while": "resubmit-jobs"})      # the old node lingers
+        tasks.append(("fault", (sc, s, plan, False)))
+    ctx.judge(run_tasks(tasks), "resubmit-jobs issued the moment the submission is complete (old batches still on the scheduler)")
+
+
+CHECKS["C06"] = make_protocol_check(16, gen_kw=dict(squeue_faults=0.4, n_min=3), extra=limits_extra)
 
 
 def main(argv=None):
